@@ -9,11 +9,23 @@ package process
 // ---------------------------------------------------------------------------------------------
 // C06: declaration of independence  (Γ ⊢ P :: (a : A_m)  requires  k >= m for every x : B_k in Γ)
 
+// Ghost record of the most recent independence checks (what was compared, and the outcome); used to state that
+// the cut rule checks the right things and proceeds only if they passed.
+//@ ghost indepOK bool
+//@ ghost indepSucc types.SessionType
+//@ ghost indepAnte []Name
+//@ ghost indepOneOK bool
+//@ ghost indepOneLeft types.SessionType
+//@ ghost indepOneRight types.SessionType
+
 //@ macro typedName(n Name) bool = n.Type != nil && base(modeOf(n.Type))
 
 //@ contract declationOfIndependenceOne
 //@   requires[C09] typedName(left) && rightType != nil && base(modeOf(rightType))
 //@   ensures C06.doiOne: (result == nil) == ge(modeOf(left.Type), modeOf(rightType))
+//@   emits indepOneOK = (result == nil)
+//@   emits indepOneLeft = left.Type
+//@   emits indepOneRight = rightType
 //@   safety C09
 
 //@ contract declationOfIndependence
@@ -21,6 +33,9 @@ package process
 //@   requires[C09] forall k int :: 0 <= k && k < len(antecedents) ==> typedName(antecedents[k])
 //@   ensures C06.doi: (result == nil) == (forall k int :: 0 <= k && k < len(antecedents) ==> ge(modeOf(antecedents[k].Type), modeOf(succedentType)))
 //@   loop 1 invariant (forall k int :: 0 <= k && k <= idx ==> ge(modeOf(antecedents[k].Type), modeOf(succedentType)))
+//@   emits indepOK = (result == nil)
+//@   emits indepSucc = succedentType
+//@   emits indepAnte = antecedents
 //@   safety C09
 
 // ---------------------------------------------------------------------------------------------
@@ -384,6 +399,8 @@ package process
 //@   loop 1 invariant (forall x string :: has(namesTypesCtx, x) ==> (exists k int :: 0 <= k && k <= idx && names[k].Ident == x && namesTypesCtx[x].Name == names[k] && namesTypesCtx[x].Type == names[k].Type))
 
 //@ contract (NamesTypesCtx).getNames
+//@   ensures C05.getNamesAll: forall x string :: has(namesTypesCtx, x) ==> (exists k int :: 0 <= k && k < len(result) && result[k] == namesTypesCtx[x].Name)
+//@   loop 1 invariant (forall x string :: visited[x] ==> (exists k int :: 0 <= k && k < len(result) && result[k] == namesTypesCtx[x].Name))
 //@   ensures C05.getNames: forall k int :: 0 <= k && k < len(result) ==> (exists x string :: has(namesTypesCtx, x) && result[k] == namesTypesCtx[x].Name)
 //@   loop 1 invariant (forall k int :: 0 <= k && k < len(result) ==> (exists x string :: has(namesTypesCtx, x) && result[k] == namesTypesCtx[x].Name))
 //@   pure
@@ -406,3 +423,12 @@ package process
 //@   callsite C05.cutCallRight process.Form.typecheckForm#2: dom(gammaRightNameTypesCtx) == add(minusSet(old(dom(gammaNameTypesCtx)), fnIdents(p.body)), p.new_name_c.Ident)
 //@   callsite C05.cutLeft process.Form.typecheckForm#3: dom(gammaLeftNameTypesCtx) == fnIdents(p.body)
 //@   callsite C05.cutRight process.Form.typecheckForm#4: dom(gammaRightNameTypesCtx) == add(minusSet(old(dom(gammaNameTypesCtx)), fnIdents(p.body)), p.new_name_c.Ident)
+
+// C06 at the cut: the context handed to the spawned term was checked against the spawned channel's type, the
+// spawned channel's type against the enclosing provider's type, and checking proceeds only if both passed.
+//@ macro coversCtx(ns []Name, g NamesTypesCtx) bool = forall x string :: has(g, x) ==> (exists k int :: 0 <= k && k < len(ns) && ns[k] == g[x].Name)
+//@ contract (*NewForm).typecheckForm
+//@   callsite C06.cutCallCtx process.Form.typecheckForm#1: indepOK && indepSucc == functionSignatureType && coversCtx(indepAnte, gammaLeftNameTypesCtx) && arg3 == functionSignatureType
+//@   callsite C06.cutCallProvider process.checkExplicitPolarityValidity#1: indepOneOK && indepOneLeft == functionSignatureType && indepOneRight == providerType
+//@   callsite C06.cutCtx process.Form.typecheckForm#3: indepOK && indepSucc == p.new_name_c.Type && coversCtx(indepAnte, gammaLeftNameTypesCtx) && arg3 == p.new_name_c.Type
+//@   callsite C06.cutProvider process.Form.typecheckForm#3: indepOneOK && indepOneLeft == p.new_name_c.Type && indepOneRight == providerType
